@@ -86,10 +86,16 @@ def do_detect(name):
     rc, out = sh('git -C %s apply %s' % (REPO, os.path.join(d, 'patch.diff')))
     if rc != 0:
         return {'id': name, 'error': 'patch does not apply to /repo: ' + out[-300:]}
+    # the check rewrites evidence/<pid>.json: what it writes for a deliberately broken tree must not replace (and later be
+    # committed instead of) the evidence of the unchanged tree
+    ev = os.path.join(VERIF, 'evidence', pid + '.json')
+    ev_saved = open(ev).read() if os.path.exists(ev) else None
     try:
         rc, out = sh('./check %s --tier quick' % pid, cwd=VERIF, timeout=3600)
     finally:
         sh('git -C %s checkout -- .' % REPO)
+        if ev_saved is not None:
+            open(ev, 'w').write(ev_saved)
     lines = out.splitlines()
     res = {'id': name, 'property': pid, 'check_exit': rc,
            'violation_lines': [l[:300] for l in lines if l.startswith('VIOLATION')][:6],
